@@ -260,39 +260,37 @@ func handleLRem(params internal.HandlerFuncParams) ([]byte, error) {
 
 	removedCount := len(list)
 
+	// Build the resulting list without modifying the stored one in place.
+	remaining := make([]string, 0, len(list))
 	switch {
 	default:
 		// Count is zero, remove all instances of the element from the list.
-		for i := 0; i < len(list); i++ {
-			if list[i] == value {
-				list = append(list[:i], list[i+1:]...)
-				absoluteCount += 1
+		for _, element := range list {
+			if element != value {
+				remaining = append(remaining, element)
 			}
 		}
 	case count > 0:
 		// Start from the head
-		for i := 0; i < len(list); i++ {
-			if absoluteCount == 0 {
-				break
-			}
-			if list[i] == value {
-				list = append(list[:i], list[i+1:]...)
+		for _, element := range list {
+			if element == value && absoluteCount > 0 {
 				absoluteCount -= 1
+				continue
 			}
+			remaining = append(remaining, element)
 		}
 	case count < 0:
 		// Start from the tail
 		for i := len(list) - 1; i >= 0; i-- {
-			if absoluteCount == 0 {
-				break
-			}
-			if list[i] == value {
-				list = append(list[:i], list[i+1:]...)
+			if list[i] == value && absoluteCount > 0 {
 				absoluteCount -= 1
-				removedCount += 0
+				continue
 			}
+			remaining = append(remaining, list[i])
 		}
+		slices.Reverse(remaining)
 	}
+	list = remaining
 
 	if err = params.SetValues(params.Context, map[string]interface{}{key: list}); err != nil {
 		return nil, err
